@@ -343,6 +343,13 @@ def run(ctx, chk, tier="quick"):
                    why="equating a storm's start with an interval's start attaches rows to whatever interval happens to start at that instant")
     chk.floor("equality joins typed", n_eq, 10)
 
+    # ------------------------------------------------------------ O3 index spaces (rise and recession)
+    from .. import indexspace
+    n_ix = 0
+    for fq_ in ("rise.compute_rise_offsets", "recession.compute_offsets"):
+        n_ix += indexspace.check(ctx, chk, "C13.O3", ctx.func(fq_), fq_.split(".")[-1])
+    chk.floor("subscripts by looked-up positions whose index space was compared (rise, recession)", n_ix, 2)
+
     # ------------------------------------------------------------ O2 + O3 rise
     rise = ctx.func("rise.compute_rise_offsets")
     rflow = Flow.of(rise)
@@ -560,6 +567,11 @@ def run(ctx, chk, tier="quick"):
             else:
                 return None, None
             which = None
+            if isinstance(arg, ast.BinOp) and not isinstance(arg.op, ast.Div) and isinstance(arg.right, ast.Name) and arg.right.id == step \
+                    and isinstance(arg.op, (ast.Mult, ast.Add, ast.Sub, ast.Mod, ast.Pow)):
+                # aggregate (op) step with another operator: readable, and not the quotient
+                fn = "%s of aggregate %s step, not the quotient:" % (fn, type(arg.op).__name__)
+                arg = ast.BinOp(left=arg.left, op=ast.Div(), right=arg.right)
             if isinstance(arg, ast.BinOp) and isinstance(arg.op, ast.Div) and isinstance(arg.right, ast.Name) and arg.right.id == step:
                 num = arg.left
                 if isinstance(num, ast.Call) and len(num.args) == 1 and (full_call_name(zg.module, num) or "").split(".")[-1] in ("floor", "ceil", "round", "trunc", "int", "float"):
@@ -596,35 +608,8 @@ def run(ctx, chk, tier="quick"):
                    "the step the ids were computed with", key="populate_zeta_grid|stored-step")
 
     # ------------------------------------------------------------ O6 cursor typestate
-    n_lazy = 0
-    for modname in ("rise", "recession", "classify", "load", "simulate_rise", "simulate_recession", "pestfiles", "zeta_grid"):
-        m = ctx.repo.modules.get(modname)
-        if m is None:
-            continue
-        for q, f in sorted(m.functions.items()):
-            for loop in [n for n in ast.walk(f.node) if isinstance(n, ast.For) and enclosing_func(n) is f.node]:
-                recv = _lazy_cursor(loop.iter)
-                if recv is None:
-                    continue
-                n_lazy += 1
-                bad = [c for st in loop.body for c in ast.walk(st)
-                       if isinstance(c, ast.Call) and isinstance(c.func, ast.Attribute) and c.func.attr in ("execute", "executemany", "executescript")
-                       and dotted_name(c.func.value) == recv]
-                passed = [c for st in loop.body for c in ast.walk(st)
-                          if isinstance(c, ast.Call) and any(isinstance(a, ast.Name) and a.id == recv for a in c.args)
-                          and ctx.cg.resolve_callee(f, c.func)]
-                chk.ob("C13.O6", not bad and not passed, where_of(f, loop),
-                       "loop iterates %s lazily; re-executed inside the loop: %s" % (recv, [ast.unparse(c)[:40] for c in bad + passed] or "no"),
-                       "a cursor being iterated is not executed again before the iteration ends",
-                       key="%s|lazy-cursor|%s" % (f.qualname, recv), why="execute on the iterated cursor silently truncates the list of intervals")
-    # positive control for the zero-expected rule
-    ctl = ast.parse("for row in cursor:\n    cursor.execute('SELECT 1')\n").body[0]
-    fired = _lazy_cursor(ctl.iter) == "cursor" and any(isinstance(c, ast.Call) and isinstance(c.func, ast.Attribute) and c.func.attr == "execute"
-                                                      for st in ctl.body for c in ast.walk(st))
-    if not fired:
-        chk.errors.append("C13.O6 positive control did not fire")
-
-
+    from ..typestate import lazy_cursor_loops
+    lazy_cursor_loops(ctx, chk, "C13.O6", ("rise", "recession", "classify", "load", "simulate_rise", "simulate_recession", "pestfiles", "zeta_grid"))
 
 
 def _series_pair(ctx, f, flow, series_expr):
@@ -996,25 +981,6 @@ def _series_arrays(ctx, f):
             if en and ln:
                 return en, ln
     return None, None
-
-
-def _lazy_cursor(it):
-    """Name of the cursor if `it` iterates it lazily."""
-    n = it
-    if isinstance(n, ast.Call) and isinstance(n.func, ast.Name) and n.func.id in ("enumerate", "iter") and n.args:
-        n = n.args[0]
-    if isinstance(n, ast.Call) and isinstance(n.func, ast.Name) and n.func.id == "zip":
-        for a in n.args:
-            if isinstance(a, ast.Starred):
-                return None  # zip(*cursor) consumes everything first
-            if isinstance(a, ast.Name) and "cursor" in a.id:
-                return a.id
-        return None
-    if isinstance(n, ast.Name) and ("cursor" in n.id or n.id in ("cur", "c")):
-        return n.id
-    if isinstance(n, ast.Call) and isinstance(n.func, ast.Attribute) and n.func.attr == "execute":
-        return dotted_name(n.func.value)
-    return None
 
 
 def _anc(node):
